@@ -11,8 +11,12 @@
    b_hash = body field 11 (TransactionBuilder.script_data_hash -> utils.script_data_hash with
    CostModels.to_shallow_primitive; `dflt` is that function's fallback cbor2.dumps(COST_MODELS)).
    usemap = use_redeemer_map.  H = BLAKE2b-256 and dflt are universally quantified, not axioms.
+   `cm : costmodels` = protocol_param.cost_models: per language either `ByName l` (dict keyed by parameter names:
+   Blockfrost, Ogmios, the built-in models) or `ByPos l` (dict keyed by integer positions: what the cardano-cli
+   backend makes of a cost model reported as a list), entries in dict order.
    SPECIFICATION side: `language_views cm langs` (canonical map: key 1 / 2 with the parameter list in the
-   given order, key h'00' with the byte string of the indefinite list of parameters ordered by name),
+   given order, key h'00' with the byte string of the indefinite list of parameters in ascending order of their
+   keys — names by code points, positions NUMERICALLY: `vals_by_key`),
    `langs_used native ops` (ledger language ids of the scripts the calls hand over or find),
    `integrity_preimage r d v = r ++ d ++ enc v`, field5 / field4 = the shipped bytes, the empty map a0 for an
    absent entry 5, nothing for an absent entry 4.
@@ -20,7 +24,7 @@
    vice versa, native_scripts are native, equal script hashes mean equal scripts.  Transactions outside it
    are rejected by the ledger for other reasons (missing / extraneous redeemer); C12_premise_needed shows the
    statement is false without it. *)
-From Coq Require Import NArith ZArith String List Bool Sorted.
+From Coq Require Import NArith ZArith String List Bool Sorted Permutation.
 From Coq Require Import Init.Byte.
 From PyC Require Import Base Cbor Value ValueCanon Redeemers RedeemersProofs ScriptHash ScriptHashOracle ScriptHashProofs.
 Import ListNotations.
@@ -98,6 +102,40 @@ Theorem C12_sort_key : forall a b, a < 3 -> b < 3 ->
   key_ltb (if a =? 0 then CB [x00] else CU a) (if b =? 0 then CB [x00] else CU b) = lk_ltb a b.
 Proof. exact vkey_order. Qed.
 Print Assumptions C12_sort_key.
+
+(* The PlutusV1 parameter list (the one the code sorts).  `keys_distinct p`: the keys of the dict are pairwise distinct
+   (a dict); `same_dict p p'`: the same entries in another dict order.  (a) The list does not depend on the dict
+   order; (b) it is the values in strictly ascending key order — integer positions compared as numbers, so position
+   2 precedes position 10 — resp. names compared by code points; (c) a cost model that the backend built from a list
+   ({i: v for i, v in enumerate(vs)}) enters the PlutusV1 language view in list order, whatever its length. *)
+Theorem C12_v1_params_dict_order : forall p p', keys_distinct p -> same_dict p p' -> vals_by_key p = vals_by_key p'.
+Proof. exact vals_by_key_dict_order. Qed.
+Print Assumptions C12_v1_params_dict_order.
+
+Theorem C12_v1_params_by_position : forall l : list (Z * Z), NoDup (map fst l) ->
+  exists s, vals_by_key (ByPos l) = map snd s /\ Permutation s l /\ StronglySorted (fun a b => fst a < fst b)%Z s.
+Proof. intros l N. eexists. exact (vals_by_key_pos l N). Qed.
+Print Assumptions C12_v1_params_by_position.
+
+Theorem C12_v1_params_by_name : forall l : list (string * Z), NoDup (map fst l) ->
+  exists s, vals_by_key (ByName l) = map snd s /\ Permutation s l
+            /\ StronglySorted (fun a b => str_ltb (fst a) (fst b) = true) s.
+Proof. intros l N. eexists. exact (vals_by_key_name l N). Qed.
+Print Assumptions C12_v1_params_by_name.
+
+Theorem C12_v1_view_of_list : forall cm vs, cm_get cm 1 = ByPos (enumerate vs) ->
+  view cm 0 = (CB [x00], CB (enc (CAi (map cint vs)))).
+Proof. exact view_v1_positional. Qed.
+Print Assumptions C12_v1_view_of_list.
+
+(* Non-vacuity: twelve positions in scrambled dict order (10 and 11 stay behind 2..9); names by code points. *)
+Theorem C12_example_positional :
+  vals_by_key (ByPos [(10, 110); (2, 102); (0, 100); (11, 111); (1, 101); (3, 103); (9, 109); (4, 104); (8, 108); (5, 105);
+                      (7, 107); (6, 106)]%Z)
+  = [100; 101; 102; 103; 104; 105; 106; 107; 108; 109; 110; 111]%Z
+  /\ vals_by_key (ByName [("b", 1); ("Zeta", 2); ("a", 3); ("10", 4); ("2", 5)]%Z%string) = [4; 5; 2; 3; 1]%Z.
+Proof. exact positional_twelve. Qed.
+Print Assumptions C12_example_positional.
 
 (* The decidable premise used by the harness implies the premise of C12_hash. *)
 Theorem C12_premise_decidable : forall native ops, sound12b native ops = true -> sound12 native ops.
